@@ -3,31 +3,32 @@
 copy of /repo (git worktree under /tmp/seedrun), never touching /repo itself.  Prints which
 checks report a violation.  Results are appended to /verif/seeded/<id>/runs.json."""
 import json, os, subprocess, sys, time
+ROOT = os.path.dirname(os.path.dirname(os.path.abspath(__file__)))
 sid = sys.argv[1]
 props = sys.argv[2:]
-manifest = json.load(open("/verif/MANIFEST.json"))
+manifest = json.load(open(f"{ROOT}/MANIFEST.json"))
 if not props:
     props = [c["property_id"] for c in manifest["checks"]]
 wt = f"/tmp/seedrun/{sid}"
 os.makedirs("/tmp/seedrun", exist_ok=True)
 subprocess.run(f"git -C /repo worktree remove --force {wt} 2>/dev/null; git -C /repo worktree add -q --detach {wt} HEAD", shell=True, check=True)
 try:
-    subprocess.run(f"git -C {wt} apply /verif/seeded/{sid}/patch.diff", shell=True, check=True)
+    subprocess.run(f"git -C {wt} apply {ROOT}/seeded/{sid}/patch.diff", shell=True, check=True)
     env = dict(os.environ, TSS_REPO=wt, TSS_EVIDENCE=f"{wt}/evidence", TSS_REPLAYS=f"{wt}/replays")
     os.makedirs(f"{wt}/evidence", exist_ok=True); os.makedirs(f"{wt}/replays", exist_ok=True)
     res = {}
     for p in props:
         t0 = time.time()
-        r = subprocess.run(["/verif/check", p, "quick"], cwd="/verif", env=env, capture_output=True, text=True)
+        r = subprocess.run([f"{ROOT}/check", p, "quick"], cwd=ROOT, env=env, capture_output=True, text=True)
         viol = [l for l in r.stdout.split("\n") if l.startswith("VIOLATION")]
         msg = [l for l in r.stderr.split("\n") if l.startswith("[check] oracle") or l.startswith("[check] corr")][:2]
         res[p] = {"rc": r.returncode, "violation": bool(viol), "line": viol[:1], "why": [m[:300] for m in msg], "s": round(time.time() - t0)}
         print(sid, p, "rc", r.returncode, "VIOLATION" if viol else "-", (msg[0][:200] if msg else ""), flush=True)
         if r.returncode not in (0, 1):
             print(r.stderr[-1500:])
-    runs_p = f"/verif/seeded/{sid}/runs.json"
+    runs_p = os.environ.get("SEED_OUT", f"{ROOT}/seeded") + f"/{sid}.runs.json"
     runs = json.load(open(runs_p)) if os.path.exists(runs_p) else []
-    runs.append({"at_commit": subprocess.run("git -C /verif rev-parse --short HEAD", shell=True, capture_output=True, text=True).stdout.strip(), "results": res})
+    runs.append({"at_commit": subprocess.run(f"git -C {ROOT} rev-parse --short HEAD", shell=True, capture_output=True, text=True).stdout.strip(), "results": res})
     json.dump(runs, open(runs_p, "w"), indent=1)
 finally:
     subprocess.run(f"git -C /repo worktree remove --force {wt}; git -C /repo worktree prune", shell=True)
